@@ -1636,13 +1636,13 @@ impl SubRule {
                                 // if it is the same segment, else one copy; an identical neighbour is another segment
                                 let own_len = if res_word.syllables[sp.syll_index].segments[sp.seg_index] == *seg { res_word.seg_length_at(sp) } else { 1 };
                                 res_word.syllables[sp.syll_index].segments[sp.seg_index] = *seg;
+                                let mut lc = 0;
                                 if let Some(m) = mods {
-                                    let lc = res_word.syllables[sp.syll_index].apply_seg_mods_to(&self.alphas, m, sp.seg_index, own_len, num.position)?;
+                                    lc = res_word.syllables[sp.syll_index].apply_seg_mods_to(&self.alphas, m, sp.seg_index, own_len, num.position)?;
                                     total_len_change[sp.syll_index] += lc;
-                                    if lc > 0 {
-                                        last_pos.seg_index += lc.unsigned_abs() as usize;
-                                    }
                                 }
+                                // leave the cursor on the last copy of the segment that was written, so that the scan does not re-enter it
+                                last_pos.seg_index = (sp.seg_index as isize + own_len as isize - 1 + lc as isize).max(sp.seg_index as isize) as usize;
                                 if self.input.len() == self.output.len() {
                                     if state_index < self.input.len() -1 {
                                         last_pos.seg_index +=1;
